@@ -31,7 +31,7 @@ import numpy as np
 from common import xr, from_xr, num_close, tokens_close
 
 ID = "C11"
-TARGETS = ["Proofs.C11", "Proofs.C11Calendar", "Proofs.C11Subset", "Proofs.GenEq.Axis"]
+TARGETS = ["Proofs.C11", "Proofs.C11Calendar", "Proofs.C11Subset", "Proofs.C11All", "Proofs.GenEq.Axis"]
 GEN_PREFIXES = ["axis."]
 # Proofs.GenEq.Axis only ties the hand-written bucket functions to the source; the C11 theorems are about the model,
 # which is also tied by the axis.bucket correspondence (see check.py, tie-only obligations)
@@ -48,6 +48,7 @@ THEOREMS = {
     "Proofs.C11Subset": ["VerifModel.C11." + t for t in [
         "C11_subset_calendar", "C11_subset_other", "C11_subset_time", "C11_subset_partition",
         "C11_subset_tods", "C11_subset_times", "C11_subset_dates"]],
+    "Proofs.C11All": ["VerifModel.C11.C11_all_axis"],
     "Proofs.GenEq.Axis": ["VerifModel.GenEq.Axis." + t for t in [
         "pyInt_eq", "leadtimeday_eq", "timeofday_eq"]],
 }
@@ -67,6 +68,9 @@ TRUSTED_BASE = [
     "np.unique, np.where and fancy indexing are modelled (sorted de-duplication, index lists, row-major "
     "flattening) and tied by the axis.slices stream; the user subset of the init times is modelled as a filter of "
     "the time dimension (Dims.restrict; _get_common_indices itself is C01-C03's subject)",
+    "the axis All is modelled outside Axis.Kind (Model/AxisAll.lean sliceAll: its reply keeps invalid cases as holes, "
+    "so it is a List (Option Case), not a compressed slice); tied by `slices all` ops of the axis.slices stream; its "
+    "oracle is written from the op's mask (expected shape and NaN positions) plus the real pooled request",
     "the command line (stream axis.cli): argument parsing, text input, the Mae / Obs metrics, the count aggregator "
     "and the csv writer run for real and are not modelled here (C13, C09, C05, C15, C12); the model computes the "
     "rows, counts and mean absolute errors from Model/Axis `slices`; descriptor columns of the csv are not compared",
@@ -102,7 +106,9 @@ RULE = ("axis.bucket: every listed day x hours {0,1,6,12,23} (+23:59:59 on bound
         "cases, sometimes a whole slice missing; built in memory or through a real text file, input order "
         "optionally reversed; a fifth of the datasets with a user subset of the init times: dates= / tods= / times= "
         "alone or combined, chosen from the dataset's own days / hours / times plus values that match nothing, "
-        "sometimes removing every init time) x all 19 axes. "
+        "sometimes removing every init time) x all 19 axes + the axis All (verif.axis.All, the default of get_scores: "
+        "reply = shape and the whole 3-D array, NaN in place at the invalid cases; three fixed ops: no valid case at "
+        "all, every case valid, a 1x1x1 dataset whose only case is invalid). "
         "Six fixed subset ops on init times on both sides of the unix epoch (1969-12-30 23:00 … 1970-01-02 06:00; -d on "
         "either side, -tod, -t) x 19 axes, and through the command line for time / day / timeofday / year. "
         "axis.cli: 24 (thorough 240) such datasets written as one or two text files (date+hour or unixtime column, "
@@ -119,7 +125,10 @@ LEVEL_TEXT = ("Lean theorems: for any bucket function and any list of cases the 
               "_apply_axis/get_axis_values satisfies this for all 19 axes; for any subset of the initialisation "
               "times (-d / -tod / -t) and every axis the slices of the subset dataset are the slices of the full "
               "dataset restricted to the surviving cases, the calendar labels are exactly the buckets that still have "
-              "a surviving init time, and the slices partition the surviving valid cases; calendar buckets are the "
+              "a surviving init time, and the slices partition the surviving valid cases; the axis All (one slice "
+              "with an entry for every case, NaN in place at the invalid ones: Model/AxisAll.lean, C11_all_axis) has as "
+              "non-NaN entries exactly the pooled valid cases of axis no in the same row-major order, so every valid "
+              "case lies in exactly one slice; calendar buckets are the "
               "first instants of the textbook civil year/month/Monday-week/day for every second 1970-2100; the "
               "lead-time day of every lead time of either sign is the integer part of l/24; the "
               "date/unixtime/datenum conversions are mutually inverse for every day 1900-2100 (kernel "
@@ -133,7 +142,8 @@ TECHNIQUE = ("Lean 4 proof over a hand-written model (two bucket functions machi
 
 TIME_AXES = ["year", "month", "week", "day", "timeofday", "dayofyear", "dayofmonth", "monthofyear"]
 ALL_AXES = ["time", "leadtime", "leadtimeday", "location", "lat", "lon", "elev", "no", "year", "month",
-            "week", "timeofday", "dayofyear", "day", "dayofmonth", "monthofyear", "obs", "fcst", "threshold"]
+            "week", "timeofday", "dayofyear", "day", "dayofmonth", "monthofyear", "obs", "fcst", "threshold",
+            "all"]       # all = verif.axis.All(): the whole 3-D array, NaN in place (Model/AxisAll.lean), not a Kind
 HOURS = [0, 1, 6, 12, 23]
 LEADS = [0.0, 0.5, 1.0, 23.0, 24.0, 25.0, 47.9, 48.0, 240.0, -0.5, -24.0, -24.5, -47.9]
 CLI_AXES = ["time", "leadtime", "leadtimeday", "location", "lat", "lon", "elev", "no", "year", "month",
@@ -332,6 +342,11 @@ def gen_ops(tier, rng):
     # 01:00, 1970-01-02 06:00) with -d on either side, -tod and -t
     fixed = "-90000,-3600,0,3600,108000 0,24 7:60:10:5;9:61:10:0 11111011111111011111 %s"
     subs = ["d=19691231", "d=19700101", "d=19691230,19700102", "tod=23", "d=19691231;tod=23", "t=-3600,0"]
+    # axis all with no valid case at all (get_scores must still hand back the whole array, all NaN) and with all valid
+    for mask0 in ("0" * 20, "1" * 20):
+        yield "axis.slices", "slices all -90000,-3600,0,3600,108000 0,24 7:60:10:5;9:61:10:0 %s %s" % (
+            mask0, rng.choice(["mem", "memrev", "text"]))
+    yield "axis.slices", "slices all 0 0 7:60:10:5 0 mem"
     for sub in subs:
         for ax in ALL_AXES:
             yield "axis.slices", "slices %s %s %s" % (ax, fixed % rng.choice(["mem", "memrev", "text"]), sub)
@@ -676,6 +691,13 @@ def impl(op):
     if a[0] == "slices":
         data = _build_data(a)
         axis = _axis(a[1])
+        if a[1] == "all":
+            import verif.field
+            obs, _ = data.get_scores([verif.field.Obs(), verif.field.Fcst()], 0, axis)
+            obs = np.asarray(obs)
+            if obs.shape == (1,) and np.isnan(obs[0]):
+                return "nan"
+            return ",".join(str(k) for k in obs.shape) + "|" + ",".join(xr(x) for x in obs.flatten())
         labels = data.get_axis_values(axis)
         sl = []
         for obs, _ in _slices_real(data, axis):
@@ -913,6 +935,8 @@ def _judge_slices(a, impl_out):
         sig["subset"] = "+".join(sorted(sub))
     mask = [mask[q] and (q // (L * S) in kept_t) for q in range(n)]
     valid = [q for q in range(n) if mask[q]]
+    if axname == "all":
+        return _judge_all(a, impl_out, sig, kept_t, alive, mask, valid, L, S)
     labels_s, slices_s = impl_out.split("|")
     labels = [] if labels_s == "-" else labels_s.split(",")
     slices = []
@@ -1004,6 +1028,45 @@ def _judge_slices(a, impl_out):
     return None
 
 
+def _judge_all(a, impl_out, sig, kept_t, alive, mask, valid, L, S):
+    """axis All (the default axis of get_scores): ONE array with an entry for every surviving case in row-major order,
+    the case where it is valid and NaN in place where it is not; its non-NaN entries are the pooled request (-x no)"""
+    import verif.axis
+    if impl_out.startswith("EXC:") or impl_out.startswith("EXIT:") or impl_out == "ERR":
+        return (sig, "axis all: get_scores ended in %s" % impl_out)
+    if not kept_t:
+        # no initialisation time left: the documented reply of get_scores is a single NaN
+        return None if impl_out == "nan" else (sig, "axis all: no init time survives, reply %s (expected one NaN)" % impl_out[:60])
+    want_shape = "%d,%d,%d" % (len(kept_t), L, S)
+    if "|" not in impl_out:
+        return (sig, "axis all: reply %s, expected the whole array of shape %s (%d of its cases are valid)" %
+                (impl_out[:60], want_shape, len(valid)))
+    shape_s, vals_s = impl_out.split("|")
+    if shape_s != want_shape:
+        return (sig, "axis all: array of shape %s, expected %s (times that survive the subset, lead times, locations)" %
+                (shape_s, want_shape))
+    got = vals_s.split(",") if vals_s else []
+    want = [str(q) if mask[q] else "nan" for q in alive]
+    d = _first_diff(got, want)
+    if d is not None:
+        i = d if isinstance(d, int) else 0
+        if len(got) != len(want):
+            return (sig, "axis all: %d entries, expected %d" % (len(got), len(want)))
+        i = next(j for j in range(len(want)) if got[j] != want[j])
+        q = alive[i]
+        return (sig, "axis all: entry %d (case %d, %s) is %s, expected %s" %
+                (i, q, "valid" if mask[q] else "invalid", got[i], want[i]))
+    # the real code again: the non-NaN entries in order = the pooled request (C11_all_axis on the implementation)
+    data = _build_data(a)
+    pobs, _ = _slices_real(data, verif.axis.No())[0]
+    pooled = [xr(x) for x in pobs if not np.isnan(x)]
+    mine = [g for g in got if g != "nan"]
+    if pooled != mine:
+        return (sig, "axis all: its non-NaN entries %s differ from the pooled request (-x no) %s" %
+                (",".join(mine[:12]), ",".join(pooled[:12])))
+    return None
+
+
 def _judge_cli(a, impl_out):
     """`verif f [g] -m obs -agg count | -m mae -x <axis> -type csv`: the rows are the documented buckets of the cases
     that survive the subset, every row's count / score is the one of exactly its cases (recomputed here in exact
@@ -1090,6 +1153,8 @@ def _judge_cli(a, impl_out):
 def nontrivial(op, out):
     a = op.split(" ")
     if a[0] == "slices":
+        if a[1] == "all":
+            return "nan" in out and out != "nan" and any(c.isdigit() for c in out.split("|")[-1])
         return out.count(";") >= 1 and "," in out
     if a[0] == "slicescli":
         return out.split("|")[0] not in ("0", "1", "ERR", "BADCSV")
